@@ -251,6 +251,8 @@ def gen(rng, tier):
         c = D.gen_open_history(rng)
         c['kind'] = 'events'
         cases.append(c)
+    for i in range(30 if tier == 'quick' else 500):
+        cases.append(D.decorate_py(rng, D.gen_dbprog(rng, loopy=0.7)))
     return cases
 
 def builtin_corpus():
